@@ -239,7 +239,14 @@ class PrecipitateModel (PrecipitateBase):
             self.PSDXbeta.append(np.zeros((self.PBM[p].bins + 1, 1)))
 
             self.PSDXalpha[p][:,0], self.PSDXbeta[p][:,0] = self.therm.getInterfacialComposition(T, self.particleGibbs(self.PBM[p].PSDbounds, self.precipitateParameters[p].phase), precPhase=self.precipitateParameters[p].phase)
-            self.RdrivingForceIndex[p] = np.amax([np.argmax(self.PSDXalpha[p][:,0] != -1) - 1, 0])
+            #If no size class is stable (interfacial composition is -1 for all), then the index is at the end of the PSDX arrays
+            #    np.argmax returns 0 if no entry is True
+            stable = self.PSDXalpha[p][:,0] != -1
+            if np.any(stable):
+                self.RdrivingForceIndex[p] = np.amax([np.argmax(stable) - 1, 0])
+                self._fillUnknownInterfacialComposition(p, np.argmax(stable) + 1)
+            else:
+                self.RdrivingForceIndex[p] = self.PBM[p].bins
             self.precipitateParameters[p].RdrivingForceLimit = self.PBM[p].PSDbounds[self.RdrivingForceIndex[p]]
 
             #Sets particle radii smaller than driving force limit to driving force limit composition
@@ -258,6 +265,16 @@ class PrecipitateModel (PrecipitateBase):
 
         return xEqAlpha, xEqBeta
     
+    def _fillUnknownInterfacialComposition(self, p, start):
+        '''
+        Size classes from index start where no interfacial composition was found (-1) take the values
+        of the size class below (last valid values), so that no -1 is used as a composition
+        '''
+        for i in range(max(start, 1), len(self.PSDXalpha[p])):
+            if self.PSDXalpha[p][i,0] == -1:
+                self.PSDXalpha[p][i,0] = self.PSDXalpha[p][i-1,0]
+                self.PSDXbeta[p][i,0] = self.PSDXbeta[p][i-1,0]
+
     def _setupAspectRatio(self):
         #If calculateAspectRatio is True, then use strain energy to calculate aspect ratio for each size class in PSD
         #Else, then use aspect ratio defined in shape factors
@@ -669,6 +686,7 @@ class PrecipitateModel (PrecipitateBase):
                         self.PSDXalpha[p] = np.concatenate((self.PSDXalpha[p], np.zeros((self.PBM[p].bins+1 - len(self.PSDXalpha[p]),1))))
                         self.PSDXbeta[p] = np.concatenate((self.PSDXbeta[p], np.zeros((self.PBM[p].bins+1 - len(self.PSDXbeta[p]),1))))
                         self.PSDXalpha[p][addedIndices:,0], self.PSDXbeta[p][addedIndices:,0] = self.therm.getInterfacialComposition(self._lookupTemp, self.particleGibbs(self.PBM[p].PSDbounds[addedIndices:], self.precipitateParameters[p].phase), precPhase=self.precipitateParameters[p].phase)
+                        self._fillUnknownInterfacialComposition(p, addedIndices)
                 else:
                     self.PSDXalpha[p] = np.zeros((self.PBM[p].bins + 1, self.numberOfElements))
                     self.PSDXbeta[p] = np.zeros((self.PBM[p].bins + 1, self.numberOfElements))
